@@ -127,7 +127,8 @@ class Renderer:
         self.dbc = dbc
         self.style = style or {}
         self.n = 0
-        self.ctes = {}
+        self.ctes = {}       # visible CTE name -> (unique sql name, width)
+        self.hoisted = []    # (unique name, body sql), in dependency order
 
     def fresh(self):
         self.n += 1
@@ -232,8 +233,9 @@ class Renderer:
             a = self.fresh()
             b = Block()
             if t in self.ctes:
-                b.frm = f"{t} AS {a}"
-                b.cols = [f"{a}.c{i+1}" for i in range(self.ctes[t])]
+                uname, w = self.ctes[t]
+                b.frm = f"{uname} AS {a}"
+                b.cols = [f"{a}.c{i+1}" for i in range(w)]
             else:
                 names = self.dbc[t]["names"]
                 b.frm = f"{self.ident(t)} AS {a}"
@@ -337,10 +339,19 @@ class Renderer:
             b.stage = 7
             return b
         if k == "with":
+            # CTEs are hoisted to the top of the statement under a unique name
+            if self.has_outer(q["body"]):
+                raise Unrenderable("correlated CTE body")
             body = self.finalize(self.block(q["body"], frames))
-            self.ctes[q["name"]] = self.width(q["body"])
+            uname = f"cte{len(self.hoisted) + 1}_{q['name']}"
+            self.hoisted.append((uname, body))
+            saved = self.ctes.get(q["name"])
+            self.ctes[q["name"]] = (uname, self.width(q["body"]))
             b = self.block(q["c"], frames)
-            b.ctes = [(q["name"], body)] + b.ctes
+            if saved is None:
+                del self.ctes[q["name"]]
+            else:
+                self.ctes[q["name"]] = saved
             return b
         raise Unrenderable("query " + k)
 
@@ -401,7 +412,7 @@ class Renderer:
     def width(self, q):
         k = q["k"]
         if k == "scan":
-            return self.ctes[q["t"]] if q["t"] in self.ctes else len(self.dbc[q["t"]]["names"])
+            return self.ctes[q["t"]][1] if q["t"] in self.ctes else len(self.dbc[q["t"]]["names"])
         if k == "values":
             return len(q["cols"])
         if k in ("filter", "distinct", "sort", "limit"):
@@ -417,8 +428,14 @@ class Renderer:
         if k == "union":
             return self.width(q["l"])
         if k == "with":
-            self.ctes.setdefault(q["name"], self.width(q["body"]))
-            return self.width(q["c"])
+            saved = self.ctes.get(q["name"])
+            self.ctes[q["name"]] = ("?", self.width(q["body"]))
+            w = self.width(q["c"])
+            if saved is None:
+                del self.ctes[q["name"]]
+            else:
+                self.ctes[q["name"]] = saved
+            return w
         raise Unrenderable("width " + k)
 
     def finalize(self, b, first_only=False):
@@ -453,7 +470,10 @@ class Renderer:
 def render_query(q, dbc, style=None):
     r = Renderer(dbc, style)
     b = r.block(q, [])
-    return r.finalize(b)
+    sql = r.finalize(b)
+    if r.hoisted:
+        sql = "WITH " + ", ".join(f"{n} AS ({body})" for n, body in r.hoisted) + " " + sql
+    return sql
 
 
 # --------------------------------------------------------------------------- databases
